@@ -91,6 +91,15 @@ RootLaw(n, Names, Fields, Ids, Rests) ==
        /\ \A id \in Ids : ~HasPrefix(DocKey(n2, id), CollRoot(n))
        /\ \A f \in Fields, r \in Rests : ~HasPrefix(IdxPrefix(n2, f) \o r, CollRoot(n))
 
+\* the id of an entry is what follows its value code.  Codes are self-delimiting (no code is a
+\* proper prefix of another), so the split of code \o id is unique whatever the length of the
+\* id - while taking the last L bytes is right only for ids of exactly L bytes
+PrefixFree(Codes) == \A c1, c2 \in Codes : HasPrefix(c1, c2) => c1 = c2
+SplitLaw(Codes, Ids) ==
+    \A c1, c2 \in Codes, id1, id2 \in Ids : (c1 \o id1 = c2 \o id2) => (c1 = c2 /\ id1 = id2)
+FixedSplitLaw(Codes, Ids, L) ==
+    \A c \in Codes, id \in Ids : L <= Len(c \o id) /\ Suffix(c \o id, L) = id
+
 KVLaws(n, f, Names, Fields, Ids, Rests) ==
     /\ MetaLaw(n, Names, Fields, Ids, Rests)
     /\ DocLaw(n, Names, Fields, Ids)
